@@ -105,6 +105,7 @@ def gen_trace(rnd, ntasks=4, nops=28, max_depth=6):
     born = 1
     nsid = 0
     pairs = [("A", 1), ("A", 2), ("B", 1), ("B", 2)]
+    prep = None   # the prepared block object: [state, kind, sid]
 
     def tg_of(t):
         for kind, sid in reversed(frames[t]):
@@ -118,6 +119,12 @@ def gen_trace(rnd, ntasks=4, nops=28, max_depth=6):
             ch = []
             if len(frames[t]) < max_depth:
                 ch += ["enter"] * 4 + ["try"]
+                if prep is not None and prep[0] == "ready":
+                    ch += ["enterprep"] * 3
+            if prep is None:
+                ch += ["prepare"]
+            elif prep[0] == "used" and prep[1] == "ascope":
+                ch += ["reenter"]
             tries = [i for i, (kind, sid) in enumerate(frames[t]) if kind == "try"]
             if tries and not any(kind == "ascope" and any(grp.get(u) == sid for u in alive)
                                  for kind, sid in frames[t][tries[-1]:]):
@@ -144,6 +151,19 @@ def gen_trace(rnd, ntasks=4, nops=28, max_depth=6):
                     nsid += 1
                 frames[t].append((kind, nsid if kind != "update" else 0))
                 name = "Enter"
+            elif c == "prepare":
+                kind = rnd.choice(["ascope", "sscope", "update"])
+                sup = [list(rnd.choice(pairs)) for _ in range(rnd.choice([0, 1, 1]))]
+                if kind != "update":
+                    nsid += 1
+                prep = ["ready", kind, nsid if kind != "update" else 0]
+                name, args = "Prepare", [t, kind, sup]
+            elif c == "enterprep":
+                prep[0] = "used"
+                frames[t].append((prep[1], prep[2]))
+                name, args = "EnterPrepared", [t]
+            elif c == "reenter":
+                name, args = "ReEnter", [t]
             elif c == "leave":
                 frames[t].pop()
                 name, args = "Leave", [t]
